@@ -30,7 +30,8 @@ def docTables (g1 g2 rv : Bool) (u : Usages) : Tables :=
     certReqCmp := .ge, certReqRhs := .requestClientCert, certMsgCmp := .ge, certMsgRhs := .requestClientCert,
     verifyCmp := .ge, verifyRhs := .verifyClientCertIfGiven,
     anyUsage := .requireAndVerifyAnyKeyUsageClientCert, usages := u, ecdheMin := 2,
-    cvCmp := .gt, cvRhs := 0, resumeNeedGuard := g1, resumeNoPolicyGuard := g2, resumeReverify := rv }
+    cvCmp := .gt, cvRhs := 0, resumeNeedGuard := g1, resumeNoPolicyGuard := g2, resumeReverify := rv,
+    vhsAssertReturns := true }
 
 /-! ### the tables, lemma by lemma -/
 
@@ -48,6 +49,20 @@ theorem any_eq (p : Policy) : (p == (docTables g1 g2 rv u).anyUsage) = p.ignores
   cases p <;> rfl
 theorem cv_eq (n : Nat) : (docTables g1 g2 rv u).cvCmp.eval n (docTables g1 g2 rv u).cvRhs = decide (n > 0) := by
   rfl
+
+/-- `verifyHandshakeSignature` with the documented tables: nil exactly for an SM2 signature that
+verifies under an elliptic-curve key (any other key fails the type assertion, which is an error) -/
+theorem verifySig_doc (k : Option KeyKind) (v : CertVerify) :
+    verifySig (docTables g1 g2 rv u) k v = (v.valid && k.any KeyKind.canSign) := by
+  rcases k with _ | k
+  · simp [verifySig, docTables]
+  · cases k <;> simp [verifySig, docTables, KeyKind.canSign]
+
+/-- the spec's proof of possession, in the shape the model computes it -/
+theorem pop_eq (b : Behaviour) :
+    b.pop = b.cv.any (fun v => v.valid && (b.sent.head?.map (·.key)).any KeyKind.canSign) := by
+  unfold Behaviour.pop
+  rcases b.cv with _ | v <;> rcases b.sent.head? with _ | c <;> simp
 
 /-- the verdict the source's key-usage list selects -/
 def codeValid (u : Usages) (p : Policy) (c : Cert) : Bool :=
@@ -73,7 +88,7 @@ def okOf : Except Stage Certs → Option Certs
 
 theorem processCerts_ok (p : Policy) (e : Bool) (certs : List Cert) (parseOK : Bool) :
     okOf (processCerts (docTables g1 g2 rv u) p e certs parseOK) =
-      if pcOK u p e certs parseOK then some ⟨certs.length, p.verifies && !certs.isEmpty⟩ else none := by
+      if pcOK u p e certs parseOK then some ⟨certs.length, p.verifies && !certs.isEmpty, certs.head?.map (·.key)⟩ else none := by
   unfold processCerts pcOK
   simp only [requires_eq, verify_eq, chainOK_eq]
   have h2 : (docTables g1 g2 rv u).ecdheMin = 2 := rfl
@@ -96,22 +111,22 @@ theorem psat_eq (p : Policy) (b : Behaviour) : PolicySatisfied p b = PSatV (vali
 
 theorem afterCerts_completed (t : Tables) (b : Behaviour) (req : Bool) (pc : Certs) (n : Nat) :
     (afterCerts t b req pc n).completed =
-      (b.kxOK && (if t.cvCmp.eval pc.peer t.cvRhs then b.pop else b.cv.isNone) && b.finishedOK) := by
-  unfold afterCerts Behaviour.pop
+      (b.kxOK && (if t.cvCmp.eval pc.peer t.cvRhs then b.cv.any (verifySig t pc.leaf) else b.cv.isNone) && b.finishedOK) := by
+  unfold afterCerts
   cases b.kxOK <;> cases b.finishedOK <;> cases t.cvCmp.eval pc.peer t.cvRhs <;> rcases b.cv with _ | w <;> simp
-  all_goals cases w.valid <;> simp
+  all_goals cases verifySig t pc.leaf w <;> simp
 
 theorem afterCerts_chains (t : Tables) (b : Behaviour) (req : Bool) (pc : Certs) (n : Nat) :
     (afterCerts t b req pc n).chains = pc.chains := by
   unfold afterCerts
   cases b.kxOK <;> cases b.finishedOK <;> cases t.cvCmp.eval pc.peer t.cvRhs <;> rcases b.cv with _ | w <;> simp
-  all_goals cases w.valid <;> simp
+  all_goals cases verifySig t pc.leaf w <;> simp
 
 theorem afterCerts_peer (t : Tables) (b : Behaviour) (req : Bool) (pc : Certs) (n : Nat) :
     (afterCerts t b req pc n).peerCerts = pc.peer := by
   unfold afterCerts
   cases b.kxOK <;> cases b.finishedOK <;> cases t.cvCmp.eval pc.peer t.cvRhs <;> rcases b.cv with _ | w <;> simp
-  all_goals cases w.valid <;> simp
+  all_goals cases verifySig t pc.leaf w <;> simp
 
 theorem full_code (p : Policy) (b : Behaviour) :
     serverCompletes (docTables g1 g2 rv u) p b = (FlowOK p b && PSatV (codeValid u p) p b) := by
@@ -157,7 +172,7 @@ theorem full_code (p : Policy) (b : Behaviour) :
       obtain ⟨⟨⟨⟨h1, h2⟩, h3⟩, h4⟩, h5⟩ := hyes
       rw [Bool.or_comm] at h1
       simp only [h1, h2, h3, h4, h5, Bool.true_and, Bool.and_true]
-      cases certs.isEmpty <;> rcases cv with _ | w <;> cases kxOK <;> cases fin <;> simp
+      rcases certs with _ | ⟨c0, rest⟩ <;> rcases cv with _ | w <;> cases kxOK <;> cases fin <;> simp [verifySig_doc]
 
 end
 
@@ -194,8 +209,9 @@ theorem full_report (p : Policy) (b : Behaviour) (h : (full (docTables g1 g2 rv 
       subst hpc
       unfold afterCerts at h ⊢
       simp only [cv_eq, Behaviour.sent, Behaviour.pop] at h ⊢
-      rcases certs with _ | ⟨c0, rest⟩ <;> cases kxOK <;> rcases cv with _ | w <;> cases fin <;> simp at h ⊢
-      all_goals (cases hw : w.valid <;> simp [hw] at h ⊢)
+      rcases certs with _ | ⟨c0, rest⟩ <;> cases kxOK <;> rcases cv with _ | w <;> cases fin <;>
+        simp [verifySig_doc] at h ⊢
+      all_goals (cases hw : w.valid <;> cases hk : c0.key.canSign <;> simp [hw, hk] at h ⊢)
 
 /-- in the model, verified chains are reported only after `certs[0].Verify` (and `certs[1]` for
 ECDHE) succeeded under a verifying policy -/
@@ -236,6 +252,7 @@ theorem origOf_sent (r : Resume) : (origOf r).sent = r.recorded := by
 /-- resumption in the repaired code: a resumed handshake completes only if the recorded
 certificates pass `processCertsFromClient` under the policy now in force -/
 theorem resume_sound (p : Policy) (r : Resume)
+    (hk : (r.recorded.head?.map (·.key)).all KeyKind.canSign = true)
     (h : resumedCompletes (docTables true true true u) p r = true) :
     PSatV (codeValid u p) p (origOf r) = true := by
   unfold resumedCompletes resume at h
@@ -262,7 +279,10 @@ theorem resume_sound (p : Policy) (r : Resume)
       have hcv : (origOf r).cv = if r.recorded.isEmpty then none else some ⟨true, true⟩ := rfl
       rw [he, hcv]
       simp only [h2, h4, Bool.true_and]
-      cases r.recorded.isEmpty <;> simp [CertVerify.valid]
+      rcases hrec : r.recorded with _ | ⟨c0, rest⟩
+      · simp
+      · rw [hrec] at hk
+        simpa [CertVerify.valid] using hk
 
 end
 
@@ -289,7 +309,12 @@ def IsStack (t : Tables) : Prop := tlcpTables = some t ∨ dtlcpTables = some t
 — iota order, `requiresClientCert` truth table, ECDHE promotion, the comparisons guarding
 CertificateRequest / mandatory Certificate / chain verification, `len(peerCertificates) > 0`
 for CertificateVerify, the ECDHE minimum of two certificates, the accepted extended key usages
-{clientAuth, serverAuth}, resumption honouring the policy (F6 repaired) — the remaining shape facts hold, and nothing the extractor looked for is missing. -/
+{clientAuth, serverAuth}, resumption honouring the policy (F6 repaired), a failed type assertion in
+`verifyHandshakeSignature` returning an error — the remaining shape facts hold (among them: the
+error of each `Verify` call of `processCertsFromClient` is inspected and returned before anything
+else happens to it, an error of `verifyHandshakeSignature` ends `doFullHandshake`, all four suites
+sign with ECC_SM3, whose case asserts `*ecdsa.PublicKey` and verifies with `sm2.VerifyASN1WithSM2`),
+and nothing the extractor looked for is missing. -/
 theorem C07_facts :
     tlcpTables = some (docTables true true true .clientOrServer) ∧
     dtlcpTables = some (docTables true true true .clientOrServer) ∧
@@ -343,15 +368,18 @@ theorem C07_full_by_policy (t : Tables) (ht : IsStack t) (b : Behaviour) :
 
 /-- **Peer certificates mean proof of possession**: after completion a non-empty
 peer-certificate list means `verifyHandshakeSignature` ran and accepted a CertificateVerify made
-with the first certificate's key over the transcript so far. -/
+with the first certificate's key over the transcript so far, and that key is an elliptic-curve
+key (for a key of any other kind — RSA — the type assertion in `verifyHandshakeSignature` fails
+and the handshake ends: no signature at all would otherwise be checked). -/
 theorem C07_peer_certs_mean_pop (t : Tables) (ht : IsStack t) (p : Policy) (b : Behaviour)
     (hc : (full t p b).completed = true) (hp : (full t p b).peerCerts ≠ 0) :
-    (full t p b).popChecked = true ∧ b.cv.any CertVerify.valid = true := by
+    (full t p b).popChecked = true ∧ b.pop = true ∧
+    b.cv.any CertVerify.valid = true ∧ (b.sent.head?.map (·.key)).any KeyKind.canSign = true := by
   rw [stack_tables ht] at hc hp ⊢
   have h := (full_report _ _ _ _ p b hc).1 hp
-  refine ⟨h.1, ?_⟩
+  refine ⟨h.1, h.2, ?_⟩
   have hpop := h.2
-  unfold Behaviour.pop at hpop
+  rw [pop_eq] at hpop
   cases hcv : b.cv with
   | none => simp [hcv] at hpop
   | some v => simpa [hcv] using hpop
@@ -379,27 +407,50 @@ theorem C07_session_pop (t : Tables) (ht : IsStack t) (p : Policy) (b : Behaviou
 /-- **Resumption honours the policy** (F6 repaired): a resumed handshake completes under policy
 `p` only if the behaviour that created the session — its recorded certificates re-judged under
 the client roots and time now in force, its proof of possession checked when they were recorded
-(`C07_session_pop`) — satisfies `p`. -/
+(`C07_session_pop`; `hk`: the key it was checked under is therefore an elliptic-curve key, which
+`C07_resumed_history` derives from the completion of the first handshake) — satisfies `p`. -/
 theorem C07_resumed (t : Tables) (ht : IsStack t) (p : Policy) (r : Resume)
+    (hk : (r.recorded.head?.map (·.key)).all KeyKind.canSign = true)
     (h : resumedCompletes t p r = true) : PolicySatisfied p (origOf r) = true := by
   rw [← psat_code_eq]
   rw [stack_tables ht] at h
-  exact resume_sound _ p r h
+  exact resume_sound _ p r hk h
 
 /-- the same over two-connection histories: a full handshake of behaviour `b1` under `p1`
 completes and stores a session; the session is offered to a server whose policy is `p2` (another
-`Config` sharing the cache) where the recorded certificates have the verdicts `now`.  If the
+`Config` sharing the cache) where the recorded certificates — the ones the client sent: as many,
+the first with the same key — have the verdicts `now`.  If the
 resumed handshake completes, the original client behaviour, judged under the configuration now in
 force, satisfies `p2`. -/
 theorem C07_resumed_history (t : Tables) (ht : IsStack t) (p1 p2 : Policy) (b1 : Behaviour)
     (now : List Cert) (hit mech fin : Bool)
     (hfull : (full t p1 b1).completed = true)
     (hlen : now.length = (full t p1 b1).recorded)
+    (hkey : now.head?.map (·.key) = b1.sent.head?.map (·.key))
     (hres : resumedCompletes t p2 ⟨hit, mech, b1.ecdhe, now, fin⟩ = true) :
     PolicySatisfied p2 { b1 with certMsg := !now.isEmpty, certs := now } = true := by
   let r : Resume := ⟨hit, mech, b1.ecdhe, now, fin⟩
   have hsent : (origOf r).sent = now := origOf_sent r
-  have h := C07_resumed t ht p2 r hres
+  -- when certificates were recorded, the original CertificateVerify was checked …
+  have hpop : now.isEmpty = false → b1.pop = true := by
+    intro hn
+    have hrec : (full t p1 b1).recorded ≠ 0 := by
+      rw [← hlen]; intro h0; rw [List.length_eq_zero_iff] at h0; simp [h0] at hn
+    exact (C07_session_pop t ht p1 b1 hfull hrec).1
+  -- … under the key of the first recorded certificate, an elliptic-curve key
+  have hleaf : (now.head?.map (·.key)).all KeyKind.canSign = true := by
+    cases hn : now.isEmpty
+    · have hp := hpop hn
+      rw [pop_eq, ← hkey] at hp
+      rcases hcv : b1.cv with _ | v
+      · simp [hcv] at hp
+      · rcases hh : now.head? with _ | c
+        · simp
+        · simp [hcv, hh] at hp
+          simp [hp.2]
+    · have : now = [] := by simpa using hn
+      simp [this]
+  have h := C07_resumed t ht p2 r hleaf hres
   -- the two behaviours differ only in `cv`; compare the three clauses
   have hsent' : ({ b1 with certMsg := !now.isEmpty, certs := now } : Behaviour).sent = now := by
     unfold Behaviour.sent; cases hn : now <;> simp
@@ -410,13 +461,67 @@ theorem C07_resumed_history (t : Tables) (ht : IsStack t) (p1 p2 : Policy) (b1 :
   rw [he] at h
   simp only [Bool.and_eq_true] at h ⊢
   refine ⟨⟨h.1.1, h.1.2⟩, ?_⟩
-  cases hn : now.isEmpty
-  · -- certificates were recorded: the original CertificateVerify was checked
-    have hrec : (full t p1 b1).recorded ≠ 0 := by
-      rw [← hlen]; intro h0; rw [List.length_eq_zero_iff] at h0; simp [h0] at hn
-    have hpop := (C07_session_pop t ht p1 b1 hfull hrec).1
-    simpa [Behaviour.pop] using hpop
-  · simp
+  rcases Bool.eq_false_or_eq_true now.isEmpty with hn | hn
+  · simp [hn]
+  · have hp := hpop hn
+    have hp' : ({ b1 with certMsg := !now.isEmpty, certs := now } : Behaviour).pop = true := by
+      rw [pop_eq] at hp ⊢
+      rw [hsent', hkey]
+      simpa using hp
+    rw [hp']; simp
+
+/-! ### every certificate the server relies on is judged on its own; foreign keys -/
+
+/-- **Each relied-on certificate is verified separately**: under a verifying policy the server
+completes only if the signing certificate AND (for ECDHE) the encryption certificate each pass the
+path validation — a good verdict for one never stands in for the other. -/
+theorem C07_each_relied_cert_verified (t : Tables) (ht : IsStack t) (p : Policy) (b : Behaviour)
+    (hv : p.verifies = true) (hc : serverCompletes t p b = true) :
+    (∀ c ∈ b.sent.head?, validUnder p c = true) ∧
+    (b.ecdhe = true → ∀ c ∈ b.sent[1]?, validUnder p c = true) := by
+  rw [C07_full t ht] at hc
+  unfold ShouldComplete PolicySatisfied at hc
+  simp only [hv, Bool.not_true, Bool.false_or, Bool.and_eq_true] at hc
+  have hall := hc.2.1.2
+  unfold Behaviour.relied at hall
+  rcases hs : b.sent with _ | ⟨c0, _ | ⟨c1, rest⟩⟩ <;> cases he : b.ecdhe <;> simp [hs, he] at hall ⊢
+  all_goals simp [hall]
+
+/-- **A certificate with a foreign key never authenticates**: when the first certificate the
+client sent carries a key that is not an elliptic-curve key (RSA, …), the server does not complete
+— under any policy, whatever CertificateVerify (garbage, by another key, none) follows. -/
+theorem C07_foreign_key_refused (t : Tables) (ht : IsStack t) (p : Policy) (b : Behaviour)
+    (hp : b.present = true) (hk : (b.sent.head?.map (·.key)).any KeyKind.canSign = false) :
+    serverCompletes t p b = false := by
+  rw [C07_full t ht]
+  unfold ShouldComplete PolicySatisfied
+  rw [pop_eq]
+  simp [hp, hk]
+
+/-- mixed pairs on an ECDHE suite: bad signing certificate with a good encryption certificate, and
+the reverse, are refused under the three verifying policies and accepted (with a correct
+CertificateVerify) under the others -/
+example : ∀ certs ∈ [[(⟨false, false, false, .sm2⟩ : Cert), ⟨true, true, true, .sm2⟩],
+                     [⟨true, true, true, .sm2⟩, ⟨false, false, false, .sm2⟩]],
+    let b : Behaviour := { ecdhe := true, certMsg := true, certs := certs, parseOK := true, kxOK := true,
+                           cv := some ⟨true, true⟩, finishedOK := true }
+    (∀ p ∈ [Policy.verifyClientCertIfGiven, .requireAndVerifyClientCert, .requireAndVerifyAnyKeyUsageClientCert],
+      serverCompletes (docTables true true true .clientOrServer) p b = false) ∧
+    (∀ p ∈ [Policy.noClientCert, .requestClientCert, .requireAnyClientCert],
+      serverCompletes (docTables true true true .clientOrServer) p b = true) := by decide
+
+/-- a trusted certificate with an RSA key and any CertificateVerify is refused at the proof of
+possession; a source whose `verifyHandshakeSignature` did not return an error for a key of the
+wrong type would complete on it with peer certificates and verified chains — the negation of
+`C07_full` for such tables, on the witness -/
+example :
+    let b : Behaviour := { ecdhe := false, certMsg := true, certs := [⟨true, true, true, .rsa⟩], parseOK := true,
+                           kxOK := true, cv := some ⟨false, false⟩, finishedOK := true }
+    (full (docTables true true true .clientOrServer) .requireAndVerifyClientCert b).stage = .pop ∧
+    ShouldComplete .requireAndVerifyClientCert b = false ∧
+    full { docTables true true true .clientOrServer with vhsAssertReturns := false } .requireAndVerifyClientCert b =
+      { completed := true, stage := .done, certReq := true, peerCerts := 1, chains := true, popChecked := true, recorded := 1 } := by
+  decide
 
 /-! ### F6 — the unrepaired code violates the resumption clause (negation on a witness) -/
 
@@ -447,7 +552,7 @@ unknown CA is resumed under `RequireAndVerifyClientCert` by the unrepaired code;
 code fails the handshake at chain verification -/
 def f6Witness2 : Resume :=
   { cacheHit := true, mechOK := true, ecdhe := false,
-    recorded := [⟨false, false, false, true⟩], finishedOK := true }
+    recorded := [⟨false, false, false, .sm2⟩], finishedOK := true }
 example : resume unrepaired .requireAndVerifyClientCert f6Witness2 = .resumedDone 1 false ∧
     PolicySatisfied .requireAndVerifyClientCert (origOf f6Witness2) = false ∧
     resume (docTables true true true .clientOrServer) .requireAndVerifyClientCert f6Witness2 = .resumedFailed .chain := by
@@ -463,10 +568,10 @@ that narrows or widens it breaks the theorems; the examples show what each direc
 /-- a trusted, in-date certificate whose extended key usage is serverAuth only / codeSigning only,
 sent with a correct proof of possession by an otherwise correct client -/
 def serverAuthOnly : Behaviour :=
-  { ecdhe := false, certMsg := true, certs := [⟨false, true, true, true⟩], parseOK := true, kxOK := true,
+  { ecdhe := false, certMsg := true, certs := [⟨false, true, true, .sm2⟩], parseOK := true, kxOK := true,
     cv := some ⟨true, true⟩, finishedOK := true }
 def codeSigningOnly : Behaviour :=
-  { ecdhe := false, certMsg := true, certs := [⟨false, false, true, true⟩], parseOK := true, kxOK := true,
+  { ecdhe := false, certMsg := true, certs := [⟨false, false, true, .sm2⟩], parseOK := true, kxOK := true,
     cv := some ⟨true, true⟩, finishedOK := true }
 
 /-- serverAuth-only is accepted under the verifying policies; codeSigning-only ("wrong extended
@@ -497,7 +602,7 @@ policy) and with `FlowOK` (an ECDHE exchange needs the client's two certificates
 CertificateVerify completes (peer certificates reported, no verified chains): the configured
 policy does not verify -/
 example :
-    let b : Behaviour := { ecdhe := true, certMsg := true, certs := [⟨false, false, false, true⟩, ⟨false, false, false, true⟩],
+    let b : Behaviour := { ecdhe := true, certMsg := true, certs := [⟨false, false, false, .sm2⟩, ⟨false, false, false, .sm2⟩],
                            parseOK := true, kxOK := true, cv := some ⟨true, true⟩, finishedOK := true }
     full (docTables true true true .clientOrServer) .noClientCert b =
       { completed := true, stage := .done, certReq := true, peerCerts := 2, chains := false, popChecked := true, recorded := 2 } ∧
@@ -544,7 +649,7 @@ example : IsStack (docTables true true true .clientOrServer) := Or.inl C07_facts
 /-- an honest client with a trusted pair under `RequireAndVerifyClientCert`, ECDHE: completes,
 two peer certificates, verified chains, proof of possession checked -/
 example :
-    let b : Behaviour := { ecdhe := true, certMsg := true, certs := [⟨true, true, true, true⟩, ⟨true, true, true, true⟩],
+    let b : Behaviour := { ecdhe := true, certMsg := true, certs := [⟨true, true, true, .sm2⟩, ⟨true, true, true, .sm2⟩],
                            parseOK := true, kxOK := true, cv := some ⟨true, true⟩, finishedOK := true }
     full (docTables true true true .clientOrServer) .requireAndVerifyClientCert b =
       { completed := true, stage := .done, certReq := true, peerCerts := 2, chains := true, popChecked := true, recorded := 2 } := by
@@ -556,12 +661,12 @@ example : ∀ p ∈ [Policy.requestClientCert, .requireAnyClientCert, .verifyCli
       .requireAndVerifyClientCert, .requireAndVerifyAnyKeyUsageClientCert],
     ∀ cv ∈ [none, some (⟨false, true⟩ : CertVerify), some ⟨true, false⟩],
     serverCompletes (docTables true true true .clientOrServer) p
-      { ecdhe := false, certMsg := true, certs := [⟨true, true, true, true⟩], parseOK := true, kxOK := true,
+      { ecdhe := false, certMsg := true, certs := [⟨true, true, true, .sm2⟩], parseOK := true, kxOK := true,
         cv := cv, finishedOK := true } = false := by decide
 
 /-- a session with a trusted certificate resumes under a verifying policy, with verified chains -/
 example : resume (docTables true true true .clientOrServer) .requireAndVerifyClientCert
-    { cacheHit := true, mechOK := true, ecdhe := false, recorded := [⟨true, true, true, true⟩], finishedOK := true }
+    { cacheHit := true, mechOK := true, ecdhe := false, recorded := [⟨true, true, true, .sm2⟩], finishedOK := true }
     = .resumedDone 1 true := by decide
 
 /-! ### `requiresClientCert` of the TRANSLATED source (`Gotlcp.Src.tlcp`, regenerated from common.go) -/
